@@ -1165,22 +1165,23 @@ def thread_new_flags(trees):
         return 0
     n = 0
 
-    def leaves(chain):
-        """[(statement list, index of last statement)] of every leaf branch; None if a branch is missing"""
-        out = []
-        if not chain.orelse:
+    def terminal_blocks(block):
+        """the statement lists in which control can leave `block` at its end (an if/else as last statement is
+        descended into); None if some way out has no block of its own (an `if` without else)"""
+        if not block:
             return None
-        for br in (chain.body, chain.orelse):
-            if len(br) == 1 and isinstance(br[0], ast.If) and br is chain.orelse:
-                sub = leaves(br[0])
-                if sub is None:
-                    return None
-                out += sub
-            else:
-                if not br:
-                    return None
-                out.append(br)
-        return out
+        last = block[-1]
+        if isinstance(last, ast.If):
+            if not last.orelse:
+                return None
+            a, b = terminal_blocks(last.body), terminal_blocks(last.orelse)
+            if a is None or b is None:
+                return None
+            return a + b
+        return [block]
+
+    def leaves(chain):
+        return terminal_blocks([chain])
 
     for rel, tree in trees.items():
         for parts, fn in alpha.walk_functions(tree):
@@ -1719,7 +1720,22 @@ def sugar_passes(trees):
     desugar_boolean_returns(trees)
 
 
+def drop_self_assignments(trees):
+    def f(stmts):
+        out = [s for s in stmts if not (isinstance(s, ast.Assign) and len(s.targets) == 1 and isinstance(s.targets[0], ast.Name)
+                                        and isinstance(s.value, ast.Name) and s.value.id == s.targets[0].id)]
+        return out or [ast.Pass()]
+    for tree in trees.values():
+        for parts, fn in alpha.walk_functions(tree):
+            fn.body = _map_blocks(fn.body, f)
+        ast.fix_missing_locations(tree)
+
+
 def shape_passes(trees):
+    # expansion of helpers may have produced new parallel / chained assignments
+    split_chained_assignments(trees)
+    split_parallel_assignments(trees)
+    drop_self_assignments(trees)
     n = comprehension_form(trees)
     extend_form(trees)
     return n
